@@ -13,7 +13,7 @@
 		true
 	}
 
-	/// @ob printable.one_char @props C13,C10,C18 @kind forall @tier quick @timeout 900 @replay str_printable @bound "every Unicode scalar value as a one-character string" @fns rcgen::string::PrintableString::try_from
+	/// @ob printable.one_char @props C04,C10,C13,C18 @kind forall @tier quick @timeout 900 @replay str_printable @bound "every Unicode scalar value as a one-character string" @fns rcgen::string::PrintableString::try_from
 	#[kani::proof]
 	#[kani::unwind(6)]
 	fn printable_one_char() {
